@@ -236,9 +236,192 @@ class _Within(Ext):
         raise Unsupported("within.%s" % name)
 
 
+# ------------------------------------------------------------------------------------------------ the two file loops
+WALKS = [
+    # folder -> list of (root, files) as os.walk yields them
+    {"MODEL": [("MODEL", ["m.mo"])]},
+    {"MODEL": [("MODEL", ["m.mo", "notes.txt", "p.mo"])]},
+    {"MODEL": [("MODEL", ["package.mo"]), ("MODEL/Sub", ["a.mo", "b.mo", "readme"])]},
+    {"MODEL": [("MODEL", ["m.mo"])], "LIB1": [("LIB1", ["l.mo"]), ("LIB1/x", ["k.mo"])], "LIB2": [("LIB2", [])]},
+    {"MODEL": [("MODEL", [])], "LIB1": [("LIB1", ["only.mo", "z.mo.bak"])]},
+]
+
+
+class TextOf(Ext):
+    def __init__(self, path):
+        self.path = path
+
+
+def h_compile_model_file_loop(eng):
+    """api._compile_model: the tree handed to the generator is the fold of Tree.extend over the parse of EVERY *.mo file below the
+    model folder and the library folders, each exactly once (with the order-independence of extend: the same library for any walk order)"""
+    from . import api_common as AC
+    w = AC.make_world(eng, with_db=False, minimal_env=True)
+    AC.install(eng, w)
+    walks = WALKS[eng.choice(len(WALKS))]
+    eng.input("directory_walks", walks)
+    order_rev = bool(eng.choice(2))     # os.walk / the file system give the files in an unspecified order
+    os_mod = eng.ext_modules["os"]
+
+    def walk(eng, folder, followlinks=False):
+        lab = folder.label if isinstance(folder, AC.PathStr) else folder
+        rows = walks.get(lab, [])
+        rows = [(r, list(reversed(fs)) if order_rev else fs) for r, fs in rows]
+        return VList([(AC.PathStr(r), VList([]), VList(list(fs))) for r, fs in rows])
+    os_mod.attrs["walk"] = stub(walk)
+    opened, parsed, extended = [], [], []
+
+    class F(AC.FileCtx):
+        def __init__(self, path):
+            self.path = path
+
+        def sym_getattr(self, eng, name):
+            if name == "read":
+                return stub(lambda eng: TextOf(self.path))
+            return AC.FileCtx.sym_getattr(self, eng, name)
+
+    def open_(eng, p, mode="r", **kw):
+        opened.append(p.label)
+        return F(p.label)
+    eng.builtins["open"] = stub(open_)
+    tree_cls = VClass("Tree")
+
+    def ext_m(eng, selfobj, other):
+        extended.append((selfobj, other))
+    ext_m._pyvc_method = True
+    tree_cls.attrs["extend"] = ext_m
+
+    def parse(eng, text):
+        t = VObj(tree_cls, {"file": text.path})
+        parsed.append(t)
+        return t
+    eng.ext_modules["pymoca.parser"] = AC.ModuleStub("parser", {"parse": stub(parse)})
+    eng.ext_modules["pymoca"].attrs["parser"] = eng.ext_modules["pymoca.parser"]
+    handed = []
+    model = VObj(VClass("Model"))
+    for nme in ("check_balanced", "simplify", "_post_checks"):
+        m_ = (lambda eng, selfobj, *a, **k: None)
+        m_._pyvc_method = True
+        model.cls.attrs[nme] = m_
+
+    def generate(eng, tree, *a):
+        handed.append(tree)
+        return model
+    eng.ext_modules["pymoca.backends.casadi.generator"] = AC.ModuleStub("generator", {"generate": stub(generate)})
+    libs = [k for k in walks if k != "MODEL"]
+    opts = VDict([("library_folders", VList([AC.PathStr(l) for l in libs])), ("check_balanced", False), ("verbose", False)])
+    f = eng.find_function("pymoca.backends.casadi.api", "_compile_model")
+    eng.call(f, [AC.PathStr("MODEL"), "M", opts], {})
+    eng.cover("fileloop.api")
+    want = sorted(r + "/" + n for rows in walks.values() for r, fs in rows for n in fs if n.endswith(".mo"))
+    eng.prove("fileloop.api.every_mo_file_parsed_exactly_once", z3.BoolVal(sorted(opened) == want and sorted(t.fields["file"] for t in parsed) == want))
+    ok = len(handed) == 1 and (not want and handed[0] is None or bool(want) and handed[0] is parsed[0])
+    ok = ok and [o for s_, o in extended] == parsed[1:] and all(s_ is parsed[0] for s_, o in extended)
+    eng.prove("fileloop.api.library_is_the_merge_of_all_parsed_files", z3.BoolVal(bool(ok)))
+
+
+class PathObj(Ext):
+    """pathlib.Path of the compiler tool: a file or a directory with a fixed recursive listing"""
+    type_names = ("Path",)
+
+    def __init__(self, label, kind, listing=()):
+        self.label, self.kind, self.listing = label, kind, listing
+        self.suffix = "." + label.rsplit(".", 1)[1] if "." in label.rsplit("/", 1)[-1] else ""
+
+    def sym_getattr(self, eng, name):
+        if name == "is_file":
+            return stub(lambda eng: self.kind == "file")
+        if name == "is_dir":
+            return stub(lambda eng: self.kind == "dir")
+        if name == "suffix":
+            return self.suffix
+        if name == "glob":
+            def glob(eng, pat):
+                if pat != "**/*.mo":
+                    raise Unsupported("glob pattern %r" % pat)
+                return VList([p for p in self.listing if p.label.endswith(".mo")])
+            return stub(glob)
+        raise Unsupported("Path.%s" % name)
+
+    def __repr__(self):
+        return self.label
+
+
+PATH_SETS = [
+    [("a.mo", "file")], [("a.mo", "file"), ("notes.txt", "file")], [("lib", "dir", ["lib/p.mo", "lib/sub/q.mo", "lib/readme.md"])],
+    [("lib", "dir", ["lib/p.mo"]), ("b.mo", "file"), ("missing.mo", "none")], [("empty", "dir", [])],
+    [("lib", "dir", ["lib/p.mo", "lib/q.mo"]), ("lib2", "dir", ["lib2/r.mo"])],
+]
+
+
+def h_compiler_file_loop(eng):
+    """tools.compiler.list_modelica_files / parse_all: every Modelica file below the given paths is parsed once and merged into the
+    one library tree; files that fail to parse are reported, never merged"""
+    base_modules(eng)
+    from .api_common import ModuleStub
+    eng.ext_modules["argparse"] = ModuleStub("argparse", {})
+    eng.ext_modules["time"] = ModuleStub("time", {})
+    eng.ext_modules["pathlib"] = ModuleStub("pathlib", {"Path": VClass("Path")})
+    eng.ext_modules["__future__"] = ModuleStub("__future__", {"generators": None})
+    from pyvc.values import NoOp
+    eng.ext_modules["logging"] = ModuleStub("logging", {"getLogger": stub(lambda eng, *a: NoOp()), "basicConfig": stub(lambda eng, *a, **k: None), "DEBUG": 10, "INFO": 20})
+    tree_cls = VClass("Tree")
+    extended = []
+
+    def ext_m(eng, selfobj, other):
+        extended.append((selfobj, other))
+    ext_m._pyvc_method = True
+    tree_cls.attrs["extend"] = ext_m
+    tree_cls.constructor = lambda eng, c, a, k: VObj(c, {"name": k.get("name")})
+    past = ModuleStub("pymoca.ast", {"Tree": tree_cls})
+    eng.ext_modules["pymoca"] = ModuleStub("pymoca", {"ast": past, "tree": ModuleStub("pymoca.tree", {}), "__version__": "1"})
+    eng.ext_modules["pymoca.ast"] = past
+    eng.ext_modules["pymoca.tree"] = eng.ext_modules["pymoca"].attrs["tree"]
+    spec = PATH_SETS[eng.choice(len(PATH_SETS))]
+    eng.input("paths", [list(x) for x in spec])
+    paths, all_files = [], []
+    for item in spec:
+        if item[1] == "dir":
+            listing = [PathObj(l, "file") for l in item[2]]
+            paths.append(PathObj(item[0], "dir", listing))
+            all_files += [p for p in listing if p.label.endswith(".mo")]
+        else:
+            p = PathObj(item[0], item[1])
+            paths.append(p)
+            if item[1] == "file" and item[0].endswith(".mo"):
+                all_files.append(p)
+    outcome = {}
+    trees = {}
+
+    def parse_file(eng, args, kw):
+        p = args[0]
+        if p.label not in outcome:
+            outcome[p.label] = eng.choice(2)      # 0: parses, 1: fails (parse_file returns None)
+        if outcome[p.label]:
+            return None
+        trees[p.label] = VObj(tree_cls, {"file": p.label})
+        return trees[p.label]
+    eng.call_contracts["parse_file"] = parse_file
+    given = bool(eng.choice(2))
+    lib = VObj(tree_cls, {"name": "given"}) if given else None
+    f = eng.find_function("tools.compiler", "parse_all")
+    eng.find_function("tools.compiler", "list_modelica_files")
+    files, errors = eng.call(f, [VList(paths)] + ([lib] if given else []), {})
+    eng.cover("fileloop.compiler")
+    files, errors = eng.iterate(files), eng.iterate(errors)
+    eng.input("parse_failures", sorted(k for k, v in outcome.items() if v))
+    eng.prove("fileloop.compiler.every_mo_file_below_the_paths_listed_once", z3.BoolVal(len(files) == len(all_files) and all(a is b for a, b in zip(files, all_files))))
+    bad = [p for p in all_files if outcome.get(p.label)]
+    eng.prove("fileloop.compiler.error_files_are_exactly_the_files_that_failed_to_parse", z3.BoolVal(len(errors) == len(bad) and all(a is b for a, b in zip(errors, bad))))
+    good = [trees[p.label] for p in all_files if not outcome.get(p.label)]
+    ok = [o for s_, o in extended] == good and len({id(s_) for s_, o in extended}) <= 1 and (not given or all(s_ is lib for s_, o in extended))
+    eng.prove("fileloop.compiler.every_parsed_file_merged_once_into_the_library", z3.BoolVal(bool(ok)))
+
+
 HARNESSES = [("ast.Class._extend / Tree.extend", h_extend_contract), ("Tree.extend over file orders", h_order_independence),
-             ("parser.file_to_tree", h_placeholder_shape)]
-EXPECTED_COVER = {"extend.done", "order.done", "placeholder.done"}
+             ("parser.file_to_tree", h_placeholder_shape), ("api._compile_model: file loop", h_compile_model_file_loop),
+             ("tools.compiler.parse_all / list_modelica_files: file loop", h_compiler_file_loop)]
+EXPECTED_COVER = {"extend.done", "order.done", "placeholder.done", "fileloop.api", "fileloop.compiler"}
 BOUNDED = True
 LEVEL = "proof"
 TRUSTED = ["pyvc VC generator and its model of dict / list / objects", "Python dict insertion order (children are compared as sets: the order of classes in a package is not part of the flattened model)",
@@ -251,7 +434,7 @@ ASSUMPTIONS = [
 EXPLANATION = "Whole-view contract of _extend / extend on the real ast classes, all presence patterns and file orders."
 MANIFEST = {
     "category": "proof",
-    "text": "Class._extend / Tree.extend are executed with the real pymoca.ast classes for every presence pattern of a two-level name space (package real / placeholder / absent on either side, models and a nested package on either side): the resulting tree's abstract view equals the spec function merge(view(self), view(other)), the own content of a class present on both sides is that of the non-placeholder side, and every class's parent is its container. Three-file splits are merged in all six orders and give the same view; file_to_tree's placeholders are verified to be empty packages. A bounded replay flattens real split libraries in every file order.",
+    "text": "Class._extend / Tree.extend are executed with the real pymoca.ast classes for every presence pattern of a two-level name space (package real / placeholder / absent on either side, models and a nested package on either side): the resulting tree's abstract view equals the spec function merge(view(self), view(other)), the own content of a class present on both sides is that of the non-placeholder side, and every class's parent is its container. Three-file splits are merged in all six orders and give the same view; file_to_tree's placeholders are verified to be empty packages. The two file loops (api._compile_model over os.walk of the model and library folders, tools.compiler.parse_all / list_modelica_files over files and directory trees) parse every *.mo file exactly once, in either listing order, and fold Tree.extend over all parsed files into one library. A bounded replay flattens real split libraries in every file order.",
     "note": "Name space and splits enumerated (exhaustive within them), contents opaque; one real definition per class; equality of flattened models from equal trees rests on C05.",
     "technique": "contract-based deductive verification: whole-view postcondition against a spec merge function, real ast classes executed symbolically over all presence patterns and orders",
 }
